@@ -164,7 +164,8 @@ CHECKS.update({
         category="proof", engine="verus-extracted",
         text="Unbounded (Verus): the verbatim body of ShmReader::snapshot is verified against an ADVERSARIAL segment - every atomic load and the volatile record copy are external functions without "
              "postcondition, so a dead, stalled or continuously updating writer is a special case - to terminate (strictly decreasing measure `retries` from the budget 1 000 000; each iteration is "
-             "straight-line: one record copy, one load), never to panic or overflow, and to fail only with SegmentNotInitialized. Complete (Kani, real woven code): with an odd generation, version 0, "
+             "straight-line: one record copy, one load), never to panic or overflow, to fail only with SegmentNotInitialized leaving the cache untouched, and to store only an even generation whenever it "
+             "replaces the cache. Complete (Kani, real woven code): with an odd generation, version 0, "
              "generation 0 or an unchanged generation the call returns its cache after two loads and zero record reads; with a quiescent fresh generation exactly one record read. Bounded (not counted): "
              "access counts <= 2+2N / N record reads with the retry budget overridden to N=3.",
         note="Verus/Z3 and Kani/CBMC sound; three logged rewrites of unsafe accesses + the spliced loop contract in the extracted body; stand-in types for the segment; Verus's termination check is for the "
